@@ -473,7 +473,13 @@ def cplx_fromdoubles(ex, st, n, args):
     return PtrV(None, 0, 'PyObject', obj=o)
 
 
-for _nm in ('creal', 'cimag', 'conj', 'sqrt', 'fabs', 'cabs', 'pow', 'exp',
+@extern('creal', "real part (identity on the abstract value)")
+def c_creal(ex, st, n, args):
+    v = ex.ev(args[0], st)
+    return FltV(v.t, 'double') if isinstance(v, FltV) else v
+
+
+for _nm in ('cimag', 'conj', 'sqrt', 'fabs', 'cabs', 'pow', 'exp',
             'log', 'cos', 'sin'):
     def _mk(nm):
         @extern(nm, "libm function, value not interpreted")
